@@ -9,7 +9,7 @@ for d in /verif/seeded/*-*/; do
   [ -f "$d/matrix.json" ] && continue
   id=$(basename $d)
   case "$id" in
-    T*|U*) python3 /verif/tools/seedtest.py matrix "$d" > "$d/matrix.log" 2>&1 ;;
+    T*|U*|V*) python3 /verif/tools/seedtest.py matrix "$d" > "$d/matrix.log" 2>&1 ;;
     *) own=$(python3 -c "
 import json,os
 d='$d'
